@@ -358,10 +358,6 @@ self . keys [ probe ] = Some ( key ) ;
 self . values [ probe ] = adjust_amount ;
 self . states [ probe ] = drift as u16 ;
 self . num_active += 1 ;
-}
-else {
-self . values [ probe ] += adjust_amount ;
-}
 proof {
 if st [ probe as int ] == 0 {
 if self . keys @ =~= ks . update ( probe as int , Some ( key ) ) && self . values @ =~= vs . update ( probe as int , adjust_amount ) && self . states @ =~= st . update ( probe as int , ( j + 1 ) as u16 ) {
@@ -369,6 +365,20 @@ if self . keys @ =~= ks . update ( probe as int , Some ( key ) ) && self . value
 }
 else {
 if self . values @ =~= vs . update ( probe as int , ( vs [ probe as int ] + adjust_amount ) as u64 ) {
+}
+}
+}
+}
+else {
+self . values [ probe ] += adjust_amount ;
+proof {
+if st [ probe as int ] == 0 {
+if self . keys @ =~= ks . update ( probe as int , Some ( key ) ) && self . values @ =~= vs . update ( probe as int , adjust_amount ) && self . states @ =~= st . update ( probe as int , ( j + 1 ) as u16 ) {
+}
+}
+else {
+if self . values @ =~= vs . update ( probe as int , ( vs [ probe as int ] + adjust_amount ) as u64 ) {
+}
 }
 }
 }
